@@ -5,8 +5,13 @@ echo "{" > seeded/RESULTS.json.tmp; first=1
 for d in seeded/C*-m*; do
   id=$(basename $d); pid=${id%%-*}
   if [ -n "$(git -C /repo status --porcelain)" ]; then echo "/repo is not clean"; exit 3; fi
-  if git -C /repo apply --check /verif/$d/patch.diff 2>/dev/null; then
-    git -C /repo apply /verif/$d/patch.diff
+  ok=0
+  if git -C /repo apply --check /verif/$d/patch.diff 2>/dev/null; then git -C /repo apply /verif/$d/patch.diff; ok=1
+  elif git -C /repo apply --3way --check /verif/$d/patch.diff 2>/dev/null; then
+    git -C /repo apply --3way /verif/$d/patch.diff >/dev/null 2>&1; git -C /repo reset -q
+    if grep -rlq '^<<<<<<< ' --include=*.py /repo/coba; then git -C /repo checkout -- .; else ok=1; fi
+  fi
+  if [ $ok -eq 1 ]; then
     line=$(timeout 1500 ./check $pid --tier quick 2>/dev/null | grep -v KNOWN-FINDING | head -1)
     git -C /repo checkout -- .
     if echo "$line" | grep -q "^VIOLATION"; then
